@@ -320,6 +320,36 @@ pub fn eq_ref(a: B, b: B) -> bool {
         && eq_opt_component(x.fragment, y.fragment)
 }
 
+/// Is the RFC resolution target `t` (kept as components, so never ambiguous) equal, in the sense of
+/// M-eq, to the reference text `a`?
+pub fn eq_target(t: &Target, a: B) -> bool {
+    let y = split(a);
+    if Some(&t.scheme[..]) != y.scheme {
+        return false;
+    }
+    let auth_ok = match (t.authority.as_deref(), y.authority) {
+        (None, None) => true,
+        (Some(p), Some(q)) => eq_authority(p, q),
+        _ => false,
+    };
+    if !auth_ok || !eq_opt_component(t.query.as_deref(), y.query) || !eq_opt_component(t.fragment.as_deref(), y.fragment) {
+        return false;
+    }
+    if t.zone_a {
+        // the text of t.path is not faithful; compare segment sequences
+        let (aabs, asg) = segments(y.path);
+        if aabs {
+            return false;
+        }
+        let an = norm_seq(false, &asg);
+        let tsegs: Vec<B> = t.path_segs.iter().map(|x| &x[..]).collect();
+        let tn = norm_seq(false, &tsegs);
+        an.len() == tn.len() && an.iter().zip(tn.iter()).all(|(x, y)| eq_component(x, y))
+    } else {
+        eq_path(&t.path, y.path)
+    }
+}
+
 // ---------------------------------------------------------------- M-resolve
 
 #[derive(Clone, Debug, PartialEq, Eq)]
@@ -341,6 +371,51 @@ pub struct Target {
     /// during the 5.2.4 walk of the (merged) path an empty segment was met
     /// while the output was empty
     pub empty_on_empty: bool,
+}
+
+/// The library's *documented* deviation for the relative-path branch (known finding of C06): the
+/// base directory is normalised in place (a lone empty segment is spelled '/', i.e. lost) and the
+/// reference is appended symbolically, where an empty segment pushed on an empty path is ignored.
+/// Returns (absolute?, logical segments) of the merged path under that reading.  Used only to
+/// decide whether an observed deviation IS the recorded finding or something else.
+pub fn quirk_merge(base: B, reference: B) -> (bool, Vec<Vec<u8>>) {
+    let bsp = split(base);
+    let rsp = split(reference);
+    let (abs, mut cur): (bool, Vec<Vec<u8>>) = if bsp.authority.is_some() && bsp.path.is_empty() {
+        (true, Vec::new())
+    } else {
+        let (abs, bsegs) = segments(bsp.path);
+        let parent: Vec<B> = if bsegs.is_empty() { Vec::new() } else { bsegs[..bsegs.len() - 1].to_vec() };
+        let mut n: Vec<Vec<u8>> = norm_seq(abs, &parent).into_iter().map(|x| x.to_vec()).collect();
+        if n.len() == 1 && n[0].is_empty() {
+            n.clear();
+        }
+        (abs, n)
+    };
+    let (_rabs, rsegs) = segments(rsp.path);
+    for seg in &rsegs {
+        if *seg == b"." {
+        } else if *seg == b".." {
+            match cur.last() {
+                Some(x) if x != b".." => {
+                    cur.pop();
+                }
+                _ => {
+                    if !abs {
+                        cur.push(b"..".to_vec())
+                    }
+                }
+            }
+        } else if seg.is_empty() && cur.is_empty() {
+        } else {
+            cur.push(seg.to_vec());
+        }
+    }
+    let open = rsegs.last().map_or(false, |l| *l == b"." || *l == b"..");
+    if open && !cur.is_empty() {
+        cur.push(Vec::new());
+    }
+    (abs, cur)
 }
 
 /// Was an empty segment met while the output stack was empty during the walk?
